@@ -98,10 +98,17 @@ class Packet:
             raise e from None
 
     def pack_impl(self, fragments, **k):
-        [sync(self) for sync in self.get_sync_before_pack_methods()]
         k['innermost-pkt-pos'] = fragments.current_offset
 
         try:
+            # the hooks of the described fields run first; a failing hook is
+            # reported as a failure of the field it belongs to
+            for sync in self.get_sync_before_pack_methods():
+                name = getattr(
+                    getattr(sync, '__self__', None), 'real_field_name', None
+                )
+                sync(self)
+
             for name, f, pack, _ in self.get_fields():
                 pack(pkt=self, fragments=fragments, **k)
         except PacketError as e:
